@@ -396,7 +396,122 @@ def tr_index():
     return '\n'.join(lines) + '\n'
 
 
-TRANSLATORS = [('ThreadProg.v', tr_threadprog), ('Consts.v', tr_consts), ('Preds.v', tr_preds), ('Index.v', tr_index)]
+
+# ---------------------------------------------------------------- gen/SymbolOps.v
+
+def tr_symbolops():
+    """sort_key(), __eq__ and __hash__ of the license symbols: the tuples and the comparison they return."""
+    le = module_ast(os.path.join(REPO_SRC, '__init__.py'))
+
+    def body_of(cls, name):
+        fn = find_func(find_class(le, cls), name)
+        return fn, [s for s in fn.body if not (isinstance(s, ast.Expr) and isinstance(s.value, ast.Constant))]
+
+    def field(e, me, parts):
+        """One element of a sort key / hash tuple as a Coq term over the named components."""
+        if isinstance(e, ast.Call) and isinstance(e.func, ast.Name) and e.func.id == 'str' and len(e.args) == 1 \
+                and isinstance(e.args[0], ast.Name) and e.args[0].id == me:
+            return 's'
+        if isinstance(e, ast.Constant) and e.value is False:
+            return 'false'
+        if isinstance(e, ast.Constant) and e.value is True:
+            return 'true'
+        if isinstance(e, ast.Constant) and isinstance(e.value, int) and e.value in (0, 1):
+            return 'true' if e.value else 'false'
+        if isinstance(e, ast.Constant) and e.value == '':
+            return '[]'
+        if isinstance(e, ast.Call) and isinstance(e.func, ast.Name) and e.func.id == 'bool' and len(e.args) == 1:
+            a = e.args[0]
+            if isinstance(a, ast.Attribute) and a.attr == 'is_exception' and isinstance(a.value, ast.Name) and a.value.id in parts:
+                return parts[a.value.id] + 'e'
+        if isinstance(e, ast.Attribute) and e.attr == 'is_exception' and isinstance(e.value, ast.Name) and e.value.id in parts:
+            return parts[e.value.id] + 'e'
+        if isinstance(e, ast.Attribute) and e.attr == 'key' and isinstance(e.value, ast.Name) and e.value.id in parts:
+            return parts[e.value.id] + 'k'
+        if isinstance(e, ast.Attribute) and e.attr in ('license_symbol', 'exception_symbol') and isinstance(e.value, ast.Name) and e.value.id == me:
+            return 'h' + ('l' if e.attr == 'license_symbol' else 'r')
+        raise Unsupported('symbol field %s' % ast.dump(e)[:80])
+
+    def tuple_of(cls, name):
+        fn, body = body_of(cls, name)
+        me = fn.args.args[0].arg
+        parts = {me: ''}
+        for st in body[:-1]:
+            ok = (isinstance(st, ast.Assign) and len(st.targets) == 1 and isinstance(st.targets[0], ast.Name)
+                  and isinstance(st.value, ast.Attribute) and isinstance(st.value.value, ast.Name) and st.value.value.id == me
+                  and st.value.attr in ('license_symbol', 'exception_symbol'))
+            if not ok:
+                raise Unsupported('%s.%s: statement at line %d' % (cls, name, st.lineno))
+            parts[st.targets[0].id] = 'l' if st.value.attr == 'license_symbol' else 'r'
+        if not isinstance(body[-1], ast.Return):
+            raise Unsupported('%s.%s: no final return' % (cls, name))
+        v = body[-1].value
+        if name == '__hash__':
+            if not (isinstance(v, ast.Call) and isinstance(v.func, ast.Name) and v.func.id == 'hash' and len(v.args) == 1):
+                raise Unsupported('%s.__hash__ is not hash(<tuple>)' % cls)
+            v = v.args[0]
+        if not isinstance(v, ast.Tuple):
+            raise Unsupported('%s.%s does not return a tuple' % (cls, name))
+        return [field(x, me, parts) for x in v.elts]
+
+    def eq_of(cls):
+        """The final return of __eq__: a conjunction of attribute equalities between self and other."""
+        fn, body = body_of(cls, '__eq__')
+        me, other = fn.args.args[0].arg, fn.args.args[1].arg
+        last = body[-1]
+        if not isinstance(last, ast.Return):
+            raise Unsupported('%s.__eq__: no final return' % cls)
+        v = last.value
+        conj = v.values if isinstance(v, ast.BoolOp) and isinstance(v.op, ast.And) else [v]
+        out = []
+        for c in conj:
+            ok = (isinstance(c, ast.Compare) and len(c.ops) == 1 and isinstance(c.ops[0], ast.Eq)
+                  and isinstance(c.left, ast.Attribute) and isinstance(c.comparators[0], ast.Attribute)
+                  and c.left.attr == c.comparators[0].attr and isinstance(c.left.value, ast.Name) and isinstance(c.comparators[0].value, ast.Name)
+                  and {c.left.value.id, c.comparators[0].value.id} == {me, other})
+            if not ok:
+                raise Unsupported('%s.__eq__: comparison %s' % (cls, ast.dump(c)[:80]))
+            out.append(c.left.attr)
+        return out
+
+    lines = ['(* generated from the symbol classes of /repo/src/license_expression/__init__.py; do not edit *)',
+             'Require Import Model.Base Model.Expr.']
+    for cls, tag in (('LicenseSymbol', 'plain'), ('LicenseSymbolLike', 'like')):
+        def defines(name):
+            return any(isinstance(n, ast.FunctionDef) and n.name == name for n in find_class(le, cls).body)
+        sk = tuple_of(cls, 'sort_key') if defines('sort_key') else None     # else inherited from LicenseSymbol
+        if sk is not None:
+            if len(sk) != 6:
+                raise Unsupported('%s.sort_key has %d fields' % (cls, len(sk)))
+            lines.append('Definition g_sort_key_%s (s k : str) (e : bool) : str * bool * str * bool * str * bool := (%s).' % (tag, ', '.join(sk)))
+        for name in ('__eq__', '__hash__'):
+            if not defines(name):
+                continue
+            if name == '__eq__':
+                attrs = eq_of(cls)
+                lines.append('Definition g_eq_fields_%s : list bool := [%s].' % (tag, '; '.join('true' if a == 'key' else 'false' for a in attrs)))
+                if sorted(attrs) != ['is_exception', 'key']:
+                    raise Unsupported('%s.__eq__ compares %r' % (cls, attrs))
+            else:
+                hv = tuple_of(cls, '__hash__')
+                lines.append('Definition g_hash_%s (k : str) (e : bool) : hinput := %s.' % (tag, 'HPlain %s %s' % tuple(hv) if hv == ['k', 'e'] else 'HPlain [] false (* %r *)' % (hv,)))
+                if hv != ['k', 'e']:
+                    raise Unsupported('%s.__hash__ hashes %r' % (cls, hv))
+    wk = tuple_of('LicenseWithExceptionSymbol', 'sort_key')
+    if len(wk) != 6:
+        raise Unsupported('LicenseWithExceptionSymbol.sort_key has %d fields' % len(wk))
+    lines.append('Definition g_sort_key_with (s lk : str) (le : bool) (rk : str) (re : bool) : str * bool * str * bool * str * bool := (%s).' % ', '.join(wk))
+    weq = eq_of('LicenseWithExceptionSymbol')
+    if sorted(weq) != ['exception_symbol', 'license_symbol']:
+        raise Unsupported('LicenseWithExceptionSymbol.__eq__ compares %r' % (weq,))
+    wh = tuple_of('LicenseWithExceptionSymbol', '__hash__')
+    if wh != ['hl', 'hr']:
+        raise Unsupported('LicenseWithExceptionSymbol.__hash__ hashes %r' % (wh,))
+    lines.append('Definition g_hash_with (hl hr : hinput) : hinput := HWith hl hr.')
+    return '\n'.join(lines) + '\n'
+
+
+TRANSLATORS = [('ThreadProg.v', tr_threadprog), ('Consts.v', tr_consts), ('Preds.v', tr_preds), ('SymbolOps.v', tr_symbolops), ('Index.v', tr_index)]
 
 
 FAILED = {}
